@@ -34,7 +34,7 @@ ANCHORS = [
                                      "Pipeline.topological_generations", "Pipeline.graph", "Pipeline.defaults",
                                      "Pipeline._autogen_mapspec_axes", "Pipeline.output_to_func", "Pipeline.drop",
                                      "Pipeline.replace", "Pipeline.update_defaults", "Pipeline.update_renames",
-                                     "Pipeline.run", "Pipeline.mapspec_names", "Pipeline.mapspecs",
+                                     "Pipeline.run", "Pipeline._validate_run_kwargs", "Pipeline.mapspec_names", "Pipeline.mapspecs",
                                      "Pipeline.sorted_functions"]),
     ("pipefunc/map/_prepare.py", ["prepare_run", "_validate_complete_inputs", "_validate_fixed_indices", "_check_parallel"]),
     ("pipefunc/map/_run_info.py", ["RunInfo.create", "RunInfo.__post_init__", "RunInfo.init_store", "RunInfo.storage_class",
@@ -67,7 +67,9 @@ RULE = ("every valid pipeline of harness/pipegen.py and every valid map request 
         "plus pipeline(output, **root_args) on the pipegen pipelines: complete, each keyword dropped, a surplus keyword "
         "(fresh name / another root argument); "
         "non-trivial = a mutated case or a base with >= 2 functions; distinct by (kind, description, mode)")
-ASSUMPTIONS = ["mutate-then-use: update_from='current', overwrite only for update_bound, no update_scope / drop; renames that "
+ASSUMPTIONS = ["pipeline(...) level: Pipe.run_checked (C02's Model/Pipe.v) = Pipeline.run with the up-front keyword "
+               "validation; the order inside Pipeline.run is regenerated from the source (steps_run)",
+               "mutate-then-use: update_from='current', overwrite only for update_bound, no update_scope / drop; renames that "
                "make two parameters of one function equal are not generated",
                "pipeline(...) level: Model/Pipe.v (C02) is the model of Pipeline.run; missing/surplus keywords are judged "
                "with C02's specification (Pipe.eval fails / keyword names no parameter of a needed function)",
@@ -493,7 +495,7 @@ def prepare_order():
             else:
                 rc2, out2 = _coqc_gen("Check_PrepareSteps.v")
                 log = out2
-                coq_ok = rc2 == 0 and out2.count("Closed under the global context") >= 3 and "Axioms:" not in out2
+                coq_ok = rc2 == 0 and out2.count("Closed under the global context") >= 4 and "Axioms:" not in out2
         finally:
             fcntl.flock(lk, fcntl.LOCK_UN)
     _order.update(paths=paths, coq_ok=coq_ok, infra=infra, log=log)
@@ -502,6 +504,8 @@ def prepare_order():
 
 def run_prep(c):
     o = prepare_order()
+    if c.get("path") == "run":
+        return [tp.skeleton(o["paths"]["steps_run"]), bool(o["coq_ok"])]
     steps = o["paths"]["steps_cleanup_true" if c["cleanup"] else "steps_cleanup_false"]
     return [tp.skeleton(steps), bool(o["coq_ok"])]
 
@@ -768,7 +772,7 @@ def emit_case(c) -> str:
     if k == "map":
         return f"(CMap {map_lit(c)} {cbool(bool(c.get('claimed')))})"
     if k == "prep":
-        return f"(CPrepOrder {cbool(c['cleanup'])})"
+        return "CRunOrder" if c.get("path") == "run" else f"(CPrepOrder {cbool(c['cleanup'])})"
     if k == "classify":
         return f"(CClassify {cnat(c['tag'])})"
     if k == "mutate":
@@ -1125,7 +1129,8 @@ def generate(rng, tier, mult):
 
     registry = list(storage_registry)
     quick = tier == "quick"
-    cases = [{"kind": "prep", "cleanup": False}, {"kind": "prep", "cleanup": True}]
+    cases = [{"kind": "prep", "cleanup": False}, {"kind": "prep", "cleanup": True},
+             {"kind": "prep", "cleanup": False, "path": "run"}]
     n_pipe = (25 if quick else 330) * mult
     n_mapc = (12 if quick else 200) * mult
     n_req = (22 if quick else 270) * mult
@@ -1182,7 +1187,7 @@ def generate(rng, tier, mult):
 # ====================================================================================== bookkeeping
 def nontrivial_key(c):
     if c["kind"] in ("prep", "classify"):
-        return (c["kind"], c.get("cleanup"), c.get("tag"))
+        return (c["kind"], c.get("cleanup"), c.get("tag"), c.get("path"))
     fs = c["p"]["funcs"] if c["kind"] == "call" else c["funcs"]
     if c.get("tag", "").startswith("valid") and len(fs) < 2:
         return None
@@ -1211,18 +1216,12 @@ def distribution(c):
 def finding_id(c, impl_obs, kind):
     """No known findings; the id only groups violations so that one replay per class of failing cases is reported."""
     if c["kind"] == "prep":
-        return f"prepare_order:cleanup={c['cleanup']}"
+        return f"prepare_order:cleanup={c['cleanup']}:{c.get('path', 'map')}"
     if c["kind"] == "classify":
         return "classification_table"
     if c["kind"] == "mutate":
         return f"mutate-{c['use']}:{c.get('tag')}"
     if c["kind"] == "call":
-        # known findings: Pipeline.run discovers a missing / surplus keyword only while / after running user functions
-        if isinstance(impl_obs, list) and len(impl_obs) == 3 and impl_obs[0] == "rejected" and impl_obs[2] > 0:
-            if impl_obs[1] == "ValueError":
-                return "run-missing-input-after-calls"
-            if impl_obs[1] == "UnusedParametersError":
-                return "run-surplus-input-after-calls"
         return f"call:{c.get('tag')}"
     return f"{c['kind']}:{c.get('tag')}"
 
